@@ -26,7 +26,7 @@
 //
 // Case kinds
 //
-//	start <dir source: cfg | env | none> <entry: start | maybechild> <marker set> <marker> <upload var set> <crash> <upload> <mode read by Dir.Mode>
+//	start <dir source: cfg | env | none> <entry: start | maybechild> <marker set> <marker> <upload var set> <crash> <upload> <mode file: N | F bytes>
 //	      <local dir reachable> <token: A | P <age ns>> <exit> <returned>
 //	      <n procs> (<S|G> <depth> <marker set> <marker> <upload var>)* <token exists after>
 //	      <token (re)created> <dir changed>
@@ -335,7 +335,11 @@ func runStart(idx int, c startCase) []string {
 	os.MkdirAll(dir, 0777)
 	defer os.RemoveAll(dir)
 	tdir := setupDir(dir, c)
-	mode, _ := it.NewDir(tdir).Mode()
+	// the mode FILE is the input (the model does its own reading of it); N = missing / unreadable
+	modeFile := []string{"N"}
+	if data, err := os.ReadFile(filepath.Join(tdir, "mode")); err == nil && c.dirSrc != dirNone {
+		modeFile = []string{"F", H(data)}
+	}
 	tf := filepath.Join(tdir, "local", "upload.token")
 	var tokBefore int64
 	if fi, err := os.Stat(tf); err == nil {
@@ -393,10 +397,9 @@ func runStart(idx int, c startCase) []string {
 	if c.maybeChild {
 		entry = "maybechild"
 	}
-	if c.dirSrc == dirNone {
-		mode = "" // there is no directory to read a mode from
-	}
-	f := []string{"start", []string{"cfg", "env", "none"}[c.dirSrc], entry, B(c.markerSet), HS(c.marker), B(c.uvSet), B(c.crash), B(c.upload), HS(mode), B(!c.broken)}
+	f := []string{"start", []string{"cfg", "env", "none"}[c.dirSrc], entry, B(c.markerSet), HS(c.marker), B(c.uvSet), B(c.crash), B(c.upload)}
+	f = append(f, modeFile...)
+	f = append(f, B(!c.broken))
 	f = append(f, tokenFields(c.token)...)
 	f = append(f, I(int64(exit)), B(returned["app/0"]))
 	f = append(f, procFields(recs)...)
@@ -515,7 +518,8 @@ func main() {
 		v   string
 	}
 	markers := []markerSpec{{false, ""}, {true, ""}, {true, "1"}, {true, "2"}, {true, "x"}}
-	modes := []*string{sp("on 2024-01-05"), sp("local 2024-01-05"), sp("off 2024-01-05"), sp("garbage")}
+	// as SetMode writes them, and as a user's `echo off > mode` does (no date, line end)
+	modes := []*string{sp("on 2024-01-05"), sp("local 2024-01-05"), sp("off 2024-01-05"), sp("garbage"), sp("off\n"), sp("on\n")}
 	tokens := []tokenSpec{{false, 0}, {true, time.Hour}, {true, 25 * time.Hour}}
 	var cases []startCase
 	for _, mc := range []bool{false, true} {
@@ -559,7 +563,11 @@ func main() {
 	moreMarkers := []markerSpec{{false, ""}, {true, ""}, {true, "1"}, {true, "2"}, {true, "x"}, {true, "0"}, {true, "11"},
 		{true, " 1"}, {true, "true"}, {true, "3"}}
 	moreModes := []*string{nil, sp("on"), sp("on 2024-01-05"), sp("local"), sp("off"), sp("off 2024-01-05\n"), sp(" off"),
-		sp("Off"), sp("offf"), sp("of"), sp("garbage"), sp(""), sp("on 2024-13-45"), sp("local 2024-01-05")}
+		sp("Off"), sp("offf"), sp("of"), sp("garbage"), sp(""), sp("on 2024-13-45"), sp("local 2024-01-05"),
+		// hand-written files: line ends, blanks, tabs, CRLF, NBSP, no date, date on the next line
+		sp("off\n"), sp("off\r\n"), sp("off  "), sp("\toff\n"), sp("off 2024-01-05\r\n"), sp("off  2024-01-05"), sp("off garbage"),
+		sp("off\u00a0"), sp("\n\noff\n\n"), sp("off\n2024-01-05"), sp("off\t2024-01-05"), sp("off\x00"), sp("o ff"), sp("OFF\n"),
+		sp("on\n"), sp("on \n"), sp("local\n"), sp("local\r\n"), sp(" on 2024-01-05 \n"), sp("\n"), sp("off\n\n"), sp("off \n")}
 	ages := []time.Duration{0, time.Minute, time.Hour, 23*time.Hour + 50*time.Minute, -time.Hour,
 		24*time.Hour + 10*time.Minute, 25 * time.Hour, 365 * 24 * time.Hour}
 	for len(cases) < n {
